@@ -61,6 +61,9 @@ Definition set_events (o : sop') : list kev :=
    the value returned is the constructed one), not at all when it reports loaded. *)
 Record lazy_call := { lz_key : Z; lz_v : Z; lz_actual : Z; lz_loaded : bool; lz_calls : nat }.
 
+Definition lzc (k v a : Z) (l : bool) (c : nat) : lazy_call :=   (* short form used by the case files *)
+  {| lz_key := k; lz_v := v; lz_actual := a; lz_loaded := l; lz_calls := c |}.
+
 Definition lazy_call_ok_b (c : lazy_call) : bool :=
   if lz_loaded c then Nat.eqb (lz_calls c) 0
   else Nat.eqb (lz_calls c) 1 && (lz_actual c =? lz_v c).
